@@ -352,6 +352,12 @@ func rejectRule(rules []string) string {
 	if len(rr) == 0 {
 		return "rej:?"
 	}
+	// the most specific id first: a Go-ism (digit separator, 0b / 0o prefix, hex float)
+	for _, r := range rr {
+		if strings.HasPrefix(r, "rej:go-") {
+			return r
+		}
+	}
 	return rr[0]
 }
 
